@@ -257,7 +257,9 @@ class Timedelta(timedelta, Rule):
 
 class EmailStr(Str):
     format = "email"
-    regex = r"([A-Za-z0-9]+[.-_])*[A-Za-z0-9]+@[A-Za-z0-9-]+(\.[A-Z|a-z]{2,})+"
+    # ([.-_] was the range from '.' to '_': with the digits and capitals in it the pattern was ambiguous and a run
+    # of them without '@' took exponential time to refuse)
+    regex = r"([A-Za-z0-9]+[._-])*[A-Za-z0-9]+@[A-Za-z0-9-]+(\.[A-Z|a-z]{2,})+"
 
 
 # from pathlib import Path
